@@ -115,6 +115,7 @@ func Run(r *vh.Run) {
 		{"relay", r.Pick(3, 30), scenRelay, false},
 		{"caps", r.Pick(6, 120), scenCaps, false},
 		{"capsout", r.Pick(3, 32), scenCapsOut, false},
+		{"storefail", r.Pick(4, 40), scenStoreFail, false},
 		{"shutdown", r.Pick(14, 252), scenShutdown, false},
 		{"srv", r.Pick(3, 60), scenSrv, false},
 		{"wallet", r.Pick(2, 30), scenWallet, false},
@@ -1848,6 +1849,108 @@ func scenCaps(name string, rng *vh.RNG, r *vh.Run) {
 		r.Add(tc)
 	}
 	for _, tc := range tgCases(name, events, map[int]bool{srv.s.VerifTG(): true}, tags) {
+		r.Add(tc)
+	}
+}
+
+// scenStoreFail: the peer store fails (AddPeer or UpdatePeerInfo) for ONE connection after its
+// handshake, inbound or outbound.  That connection is refused; it must leave no trace: Peers() does
+// not list it, its cap slot is free again (further peers up to the cap are admitted), and Close —
+// whose Run waits for the peer set to drain — returns.
+func scenStoreFail(name string, rng *vh.RNG, r *vh.Run) {
+	idx := 0
+	fmt.Sscanf(name[len("storefail"):], "%d", &idx)
+	failUpdate := idx%2 == 1 // even: AddPeer fails, odd: UpdatePeerInfo fails
+	outbound := idx%4 >= 2   // 0,1: an inbound connection is hit; 2,3: an outbound one
+	maxIn := 1 + rng.Intn(2)
+	c := &vh.Case{Name: name, Tags: []string{"scen:storefail", fmt.Sprintf("storefail:update=%v,outbound=%v", failUpdate, outbound)},
+		Info: map[string]any{"fail_update": failUpdate, "outbound": outbound, "maxIn": maxIn}}
+	defer func() { r.Add(c) }()
+	threadgroup.VerifStart()
+	fs := &failStore{PeerStore: testutil.NewEphemeralPeerStore()}
+	if failUpdate {
+		fs.failUpdate = 1
+	} else {
+		fs.failAdd = 1
+	}
+	srv, err := newNodeFull("127.0.0.1", "", nil, false, fs, syncer.WithMaxInboundPeers(maxIn))
+	if err != nil {
+		orc(c, "setup", "server: %v", err)
+		return
+	}
+	var remotes []*node
+	for i := 0; i < maxIn+2; i++ {
+		rm, err := newNode("127.0.0.1", "", nil, false, syncer.WithConnectTimeout(1500*time.Millisecond))
+		if err != nil {
+			orc(c, "setup", "remote: %v", err)
+			return
+		}
+		remotes = append(remotes, rm)
+	}
+	// the connection that hits the failing store
+	if outbound {
+		if _, err := srv.s.Connect(context.Background(), remotes[0].s.Addr()); err == nil {
+			orc(c, "storefail-connect-succeeded", "Connect returned no error although the peer store failed")
+		}
+	} else {
+		remotes[0].s.Connect(context.Background(), srv.s.Addr())
+	}
+	deadline := time.Now().Add(settleDeadline)
+	for fs.failed() == 0 && time.Now().Before(deadline) {
+		time.Sleep(time.Millisecond)
+	}
+	if fs.failed() == 0 {
+		orc(c, "setup", "the peer store was not reached")
+	}
+	// the refused connection leaves no trace (the refusal is complete when the remote end has lost it)
+	deadline = time.Now().Add(settleDeadline)
+	for (len(remotes[0].s.Peers()) != 0 || len(srv.s.Peers()) != 0) && time.Now().Before(deadline) {
+		time.Sleep(2 * time.Millisecond)
+	}
+	if n := len(srv.s.Peers()); n != 0 {
+		orc(c, "refused-peer-still-registered", "Peers() lists %d peer(s) after the only connection was refused because the peer store failed (%s): the peer is registered but never served or removed", n, map[bool]string{true: "UpdatePeerInfo", false: "AddPeer"}[failUpdate])
+	}
+	// its cap slot is free: maxIn further inbound peers are admitted, one more is not
+	for i := 1; i <= maxIn+1; i++ {
+		remotes[i].s.Connect(context.Background(), srv.s.Addr())
+	}
+	want := maxIn
+	deadline = time.Now().Add(settleDeadline)
+	in := 0
+	for time.Now().Before(deadline) {
+		in, _ = countDir(srv.s)
+		if in == want {
+			break
+		}
+		time.Sleep(2 * time.Millisecond)
+	}
+	time.Sleep(20 * time.Millisecond)
+	in, _ = countDir(srv.s)
+	live := 0
+	for i := 1; i <= maxIn+1; i++ {
+		live += len(remotes[i].s.Peers())
+	}
+	if in != want || live != want {
+		orc(c, "cap-slot-held-by-refused-peer", "after a connection refused by a failing peer store, %d inbound peer(s) are registered and %d remote end(s) are connected, expected %d (MaxInboundPeers): the refused peer still occupies a slot", in, live, want)
+	}
+	if ok, _ := closeWithin(func() { srv.s.Close() }, closeDeadline); !ok {
+		orc(c, "syncer-close-hung", "Syncer.Close did not return within %v after a connection was refused because the peer store failed: Run waits for a peer that nobody removes", closeDeadline)
+	}
+	select {
+	case <-srv.run:
+	case <-time.After(settleDeadline):
+		orc(c, "run-not-returned", "Syncer.Run has not returned %v after Close", settleDeadline)
+	}
+	for _, rm := range remotes {
+		closeWithin(func() { rm.s.Close() }, closeDeadline)
+	}
+	events := threadgroup.VerifStop()
+	c.Nontrivial = true
+	c.Key = fmt.Sprintf("%s/%d", name, len(events))
+	inventory(c)
+	tags := []string{"scen:storefail"}
+	r.Add(capsCase(name, events, srv.s.VerifID(), maxIn, 16, tags))
+	if tc := teardownCase(name, events, srv.s.VerifID(), srv.s.VerifTG(), tags); tc != nil {
 		r.Add(tc)
 	}
 }
